@@ -32,7 +32,7 @@ var (
 	flagWorkers = flag.Int("c13workers", 0, "number of worker processes (default: number of CPUs)")
 	flagFam     = flag.String("c13fam", "", "debug: only families whose name contains this")
 	flagProf    = flag.String("c13cpuprofile", "", "debug: CPU profile of a worker")
-	flagTimeout = flag.Duration("c13timeout", 30*time.Second, "per-case watchdog")
+	flagTimeout = flag.Duration("c13timeout", 120*time.Second, "per-case watchdog (safety net only)")
 )
 
 // Case is one evaluated element of the space (and the replay format).
@@ -73,17 +73,18 @@ type req struct {
 }
 
 type resp struct {
-	T      string `json:"t"` // v | done
-	Sig    string `json:"sig,omitempty"`
-	Detail string `json:"detail,omitempty"`
-	Case   *Case  `json:"case,omitempty"`
-	G      int    `json:"g"`
-	N      int64  `json:"n,omitempty"`
-	Fam    string `json:"fam,omitempty"`
-	Hung   bool   `json:"hung,omitempty"`
-	Inc    int64  `json:"inc,omitempty"`    // loopback cases that were inconclusive (network/timing)
-	IncWhy string `json:"incwhy,omitempty"` // first reason
-	Sample *Case  `json:"sample,omitempty"`
+	T       string `json:"t"` // v | done
+	Sig     string `json:"sig,omitempty"`
+	Detail  string `json:"detail,omitempty"`
+	Case    *Case  `json:"case,omitempty"`
+	G       int    `json:"g"`
+	N       int64  `json:"n,omitempty"`
+	Fam     string `json:"fam,omitempty"`
+	Hung    bool   `json:"hung,omitempty"`
+	Recycle bool   `json:"recycle,omitempty"` // the worker has grown large (leaked library goroutines/buffers): replace it
+	Inc     int64  `json:"inc,omitempty"`     // loopback cases that were inconclusive (network/timing)
+	IncWhy  string `json:"incwhy,omitempty"`  // first reason
+	Sample  *Case  `json:"sample,omitempty"`
 }
 
 // guarded runs one case with panic capture and a watchdog.
@@ -126,7 +127,20 @@ func runCase(c Case) []V {
 	return []V{{"C13.harness:unknown-kind", c.Kind}}
 }
 
-const childMemLimit = 6 << 30
+const (
+	childMemLimit = 6 << 30
+	childRecycle  = 1 << 30 // a worker this large after a group is replaced, so that a later kill is blamed on the right group
+)
+
+func residentBytes() int64 {
+	b, err := os.ReadFile("/proc/self/statm")
+	if err != nil {
+		return 0
+	}
+	var size, rss int64
+	fmt.Sscan(string(b), &size, &rss)
+	return rss * int64(os.Getpagesize())
+}
 
 // childWatchdog ends the worker when the supervisor is gone or when the process has grown beyond any
 // legitimate need (a corrupted length prefix can make the library allocate gigabytes).
@@ -137,13 +151,9 @@ func childWatchdog() {
 		if os.Getppid() != ppid {
 			os.Exit(9)
 		}
-		if b, err := os.ReadFile("/proc/self/statm"); err == nil {
-			var size, rss int64
-			fmt.Sscan(string(b), &size, &rss)
-			if rss*int64(os.Getpagesize()) > childMemLimit {
-				fmt.Fprintf(os.Stderr, "fatal error: c13 worker memory limit exceeded (resident %d MiB)\n", rss*int64(os.Getpagesize())>>20)
-				os.Exit(7)
-			}
+		if rss := residentBytes(); rss > childMemLimit {
+			fmt.Fprintf(os.Stderr, "fatal error: c13 worker memory limit exceeded (resident %d MiB)\n", rss>>20)
+			os.Exit(7)
 		}
 	}
 }
@@ -217,7 +227,7 @@ func childMain(e *vlib.Explore) {
 			if strings.HasPrefix(g.Fam, "loop-") && anyHung {
 				anyHung, inc = false, inc+1 // a timeout on a real connection decides nothing
 			}
-			enc.Encode(resp{T: "done", G: gi, N: n, Fam: g.Fam, Hung: anyHung, Sample: sample, Inc: inc, IncWhy: incWhy})
+			enc.Encode(resp{T: "done", G: gi, N: n, Fam: g.Fam, Hung: anyHung, Sample: sample, Inc: inc, IncWhy: incWhy, Recycle: anyHung || residentBytes() > childRecycle})
 			out.Flush()
 		}
 		if err != nil {
@@ -518,6 +528,10 @@ func main() {
 					continue
 				}
 				e.CaseN(done.Fam, done.N)
+				if done.Recycle {
+					record(w.stop())
+					w = nil
+				}
 				mu.Lock()
 				if done.Inc > 0 {
 					loopInc[done.Fam] += done.Inc
